@@ -1,13 +1,13 @@
 SPECIFICATION Spec
 CONSTANTS
   Ids = {1, 2}
-  Consumers = {1}
-  Topics = {1}
-  MaxTime = 3
-  Dues = {0, 2}
+  Consumers = {1, 2}
+  Topics = {1, 2}
+  MaxTime = 2
+  Dues = {0}
   Ttls = {0}
   MaxTag = 3
-  ConsCfg <- CfgN1
+  ConsCfg <- CfgTopics
 
 VIEW NoHist
 INVARIANT Conservation
